@@ -5,7 +5,7 @@
 From Coq Require Import List ZArith Lia Bool Arith.
 Import ListNotations.
 Require Import C01.Sums C01.Batch C01.Tensor C01.OpExpr C01.Model C01.Covered.
-Require Import C01.ProofsBase C01.ProofsAlg C01.ProofsKron C01.ProofsStruct C01.ProofsMore C01.ProofsSize C01.ProofsMain.
+Require Import C01.ProofsBase C01.ProofsAlg C01.ProofsKron C01.ProofsStruct C01.ProofsMore C01.ProofsPerm C01.ProofsRepeat C01.ProofsMul C01.ProofsSize C01.ProofsMain.
 Open Scope Z_scope.
 
 (* ---- congruences of the dense combinators ----------------------------------------------------- *)
@@ -262,6 +262,15 @@ Proof.
     + simpl. eapply BTeq_trans; [|apply BTeq_sym; apply dmm_dtr; [assumption|symmetry; assumption]].
       eapply BTeq_trans; [apply dmm_eq_l; [rewrite SB, SB0, bcompat_sym; assumption|exact TD]|].
       apply dmm_eq_r; [simpl; rewrite SB0, bcompat_sym; assumption|simpl; congruence|exact TD0].
+  - (* Mul *) destruct (simple_root_denote e1) as [D1 C1]; [assumption|]. destruct (simple_root_denote e2) as [D2 C2]; [assumption|].
+    tsplit; [unfold wf; simpl; repeat (apply andb_true_iff; split); try assumption; try (apply shape_eqb_eq; assumption); apply Nat.eqb_eq; assumption
+            |unfold covered; simpl; apply andb_true_iff; split; assumption|].
+    simpl tr. simpl denote. apply BTeq_sym. apply (gram_sym_mt true).
+    + rewrite D1. apply dmm_AAt_sym.
+    + rewrite D2. apply dmm_AAt_sym.
+    + match goal with HE : bsh (denote e1) = bsh (denote e2) |- _ => rewrite HE end. apply bcompat_refl.
+    + congruence.
+    + congruence.
   - (* ConstantMul *)
     tsplit; [wfsolve|wfsolve|]. simpl. eapply BTeq_trans; [apply dscale_eq; exact TD|apply BTeq_sym; apply dtr_dscale].
   - (* BlockDiag *)
@@ -271,6 +280,9 @@ Proof.
     tsplit; [wfsolve|wfsolve|]. simpl. eapply BTeq_trans; [apply dblockinter_eq; exact TD|apply BTeq_sym; apply dtr_dblockinter].
   - (* SumBatch *)
     tsplit; [wfsolve|wfsolve|]. simpl. eapply BTeq_trans; [apply dsumbatch_eq; exact TD|apply BTeq_sym; apply dtr_dsumbatch].
+  - (* BatchRepeat *)
+    tsplit; [wfsolve|wfsolve|].
+    simpl. eapply BTeq_trans; [apply drepeat_eq; [rewrite SB; assumption|exact TD]|apply BTeq_sym; apply dtr_drepeat].
   - (* Cat *) destruct ops as [|x ops]; [discriminate|]. destruct ops as [|x2 ops]; [discriminate|].
     destruct d; try discriminate.
     + destruct (cat_tr_rows x (x2 :: ops)) as (K1 & K2 & K3 & K4); try assumption.
@@ -293,6 +305,11 @@ Proof.
   - (* Masked *)
     tsplit; [wfsolve|wfsolve|]. simpl.
     eapply BTeq_trans; [apply dmask_eq; [congruence|congruence|exact TD]|apply BTeq_sym; apply dtr_dmask].
+  - (* Permutation *)
+    assert (HE : perm_okb (fr (inv_perm p)) = true).
+    { rewrite (perm_okb_eq (fr (inv_perm p)) (inv_perm p) (fr_eq _) eq_refl). apply inv_perm_ok. assumption. }
+    tsplit; [unfold wf; simpl wfb; rewrite HE; reflexivity|reflexivity|].
+    simpl denote. eapply BTeq_trans; [apply dperm_eq; [apply fr_eq|reflexivity]|apply dperm_inv; assumption].
   - (* TransposePermutation *) tsplit; [assumption|reflexivity|]. apply BTeq_sym. apply dtr_dtransperm.
   - (* Kernel *)
     tsplit; [wfsolve|reflexivity|]. 
@@ -435,6 +452,11 @@ Proof.
     destruct (BTeq_shape _ _ HL) as (a1 & a2 & a3). destruct (BTeq_shape _ _ HR) as (b1 & b2 & b3).
     eapply BTeq_trans; [apply dmm_eq_l; [rewrite a1, b1; assumption|exact HL]|].
     apply dmm_eq_r; [rewrite b1; assumption|congruence|exact HR].
+  - (* Mul *) destruct (simple_root_denote e1) as [D1 C1]; [assumption|]. destruct (simple_root_denote e2) as [D2 C2]; [assumption|].
+    specialize (IHe1 ltac:(assumption) C1). specialize (IHe2 ltac:(assumption) C2).
+    destruct (BTeq_shape _ _ IHe1) as (a1 & a2 & a3). destruct (BTeq_shape _ _ IHe2) as (b1 & b2 & b3).
+    simpl td. simpl denote. apply dhad_eq; try assumption; try congruence.
+    rewrite a1, b1. match goal with HE : bsh (denote e1) = bsh (denote e2) |- _ => rewrite HE end. apply bcompat_refl.
   - (* ConstantMul *) simpl. apply dmulc_dscale; [apply IHe; assumption|assumption].
   - (* BlockDiag *) cbn [td]. destruct (is_diag_cls e) eqn:HD.
     + destruct (bsh (denote e)) as [|k bs] eqn:HS; [discriminate|].
